@@ -51,6 +51,7 @@ type variant struct {
 	canon bool // canonical layout only
 	atEnd bool // must be the last thing of the text
 	first bool // must be the first statement of its list (it could complete the statement in front of it)
+	toks  []minijs.Token // when set: the injected tokens (texts that contain white space); text then only describes them
 }
 
 func notInLoopOrSwitch(c sctx) bool { return !c.inIter && !c.inSwitch }
@@ -389,7 +390,7 @@ var TokenKinds = []string{"unbalanced", "adjacent-binops"}
 // KindNames lists every injector (deterministic order).
 var KindNames = []string{"break-outside", "continue-outside", "continue-noniter-label", "return-top", "unknown-label",
 	"duplicate-label", "bad-target", "try-alone", "bad-regex", "bad-string", "bad-comment", "reserved-ident", "grammar",
-	"known-accepted", "unbalanced", "adjacent-binops", "bad-regex-nested"}
+	"known-accepted", "unbalanced", "adjacent-binops", "bad-regex-nested", "bad-escape"}
 
 const marker = "\x00INJ"
 
@@ -647,6 +648,9 @@ func Inject(prog *minijs.Node, inj Injection) (res Injected, ok bool) {
 				res.Depth = depth
 			}
 		}()
+	} else if inj.Kind == "bad-escape" {
+		v.toks, v.text = BadEscape(inj.Var)
+		v.canon = true
 	} else {
 		vars := Kinds[inj.Kind]
 		if len(vars) == 0 {
@@ -697,7 +701,10 @@ func Inject(prog *minijs.Node, inj Injection) (res Injected, ok bool) {
 	if at < 0 || at+1 >= len(toks) {
 		return res, false
 	}
-	inTok := lexVariant(v.text)
+	inTok := v.toks
+	if inTok == nil {
+		inTok = lexVariant(v.text)
+	}
 	toks = append(toks[:at:at], append(inTok, toks[at+2:]...)...)
 	res.Tokens = append(append([]minijs.Token(nil), Prefix...), toks...)
 	res.Variant = v.text
